@@ -439,6 +439,7 @@ package thrift
 // ---- stream reader (over the bufiox.Reader interface contract: every fragmentation at once) ----
 
 //@ pred srcWrap(err) = istype(err, *ProtocolException)
+//@ pred wraps(err, rd) = istype(err, *ProtocolException) && (same(err, rd.$lasterr) || same(astype(err, *ProtocolException).err, rd.$lasterr))
 
 //@ func BufferReader.next
 //@   arith int
@@ -447,8 +448,8 @@ package thrift
 //@   ensures (err == nil) == (0 <= n && n <= len(old(r.r.$u)))
 //@   ensures err == nil ==> len(b) == n && eqbytes(b, 0, old(r.r.$u), 0, n) && rdTake(r.r, n)
 //@   ensures err != nil ==> rdSame(r.r)
-//@   ensures[C17] err != nil ==> srcWrap(err)
-//@   assigns r.r.$u, r.r.$readlen
+//@   ensures[C17] err != nil ==> wraps(err, r.r)
+//@   assigns r.r.$u, r.r.$readlen, r.r.$lasterr
 
 //@ func BufferReader.ReadBool
 //@   arith int
@@ -458,8 +459,8 @@ package thrift
 //@   ensures (err == nil) == (1 <= len(U))
 //@   ensures err == nil ==> (v <==> U[0] == 1) && rdTake(r.r, 1)
 //@   ensures err != nil ==> rdSame(r.r) && !v
-//@   ensures[C17] err != nil ==> srcWrap(err)
-//@   assigns r.r.$u, r.r.$readlen
+//@   ensures[C17] err != nil ==> wraps(err, r.r)
+//@   assigns r.r.$u, r.r.$readlen, r.r.$lasterr
 
 //@ func BufferReader.ReadByte
 //@   arith int
@@ -469,8 +470,8 @@ package thrift
 //@   ensures (err == nil) == (1 <= len(U))
 //@   ensures err == nil ==> v == int8(U[0]) && rdTake(r.r, 1)
 //@   ensures err != nil ==> rdSame(r.r) && v == 0
-//@   ensures[C17] err != nil ==> srcWrap(err)
-//@   assigns r.r.$u, r.r.$readlen
+//@   ensures[C17] err != nil ==> wraps(err, r.r)
+//@   assigns r.r.$u, r.r.$readlen, r.r.$lasterr
 
 //@ func BufferReader.ReadI16
 //@   arith int
@@ -480,8 +481,8 @@ package thrift
 //@   ensures (err == nil) == (2 <= len(U))
 //@   ensures err == nil ==> v == int16(vs.BE16(U, 0)) && rdTake(r.r, 2)
 //@   ensures err != nil ==> rdSame(r.r) && v == 0
-//@   ensures[C17] err != nil ==> srcWrap(err)
-//@   assigns r.r.$u, r.r.$readlen
+//@   ensures[C17] err != nil ==> wraps(err, r.r)
+//@   assigns r.r.$u, r.r.$readlen, r.r.$lasterr
 
 //@ func BufferReader.ReadI32
 //@   arith int
@@ -491,8 +492,8 @@ package thrift
 //@   ensures (err == nil) == (4 <= len(U))
 //@   ensures err == nil ==> v == int32(vs.BE32(U, 0)) && rdTake(r.r, 4)
 //@   ensures err != nil ==> rdSame(r.r) && v == 0
-//@   ensures[C17] err != nil ==> srcWrap(err)
-//@   assigns r.r.$u, r.r.$readlen
+//@   ensures[C17] err != nil ==> wraps(err, r.r)
+//@   assigns r.r.$u, r.r.$readlen, r.r.$lasterr
 
 //@ func BufferReader.ReadI64
 //@   arith int
@@ -502,8 +503,8 @@ package thrift
 //@   ensures (err == nil) == (8 <= len(U))
 //@   ensures err == nil ==> v == int64(vs.BE64(U, 0)) && rdTake(r.r, 8)
 //@   ensures err != nil ==> rdSame(r.r) && v == 0
-//@   ensures[C17] err != nil ==> srcWrap(err)
-//@   assigns r.r.$u, r.r.$readlen
+//@   ensures[C17] err != nil ==> wraps(err, r.r)
+//@   assigns r.r.$u, r.r.$readlen, r.r.$lasterr
 
 //@ func BufferReader.ReadDouble
 //@   arith int
@@ -513,8 +514,8 @@ package thrift
 //@   ensures (err == nil) == (8 <= len(U))
 //@   ensures err == nil ==> math.Float64bits(v) == vs.BE64(U, 0) && rdTake(r.r, 8)
 //@   ensures err != nil ==> rdSame(r.r) && math.Float64bits(v) == 0
-//@   ensures[C17] err != nil ==> srcWrap(err)
-//@   assigns r.r.$u, r.r.$readlen
+//@   ensures[C17] err != nil ==> wraps(err, r.r)
+//@   assigns r.r.$u, r.r.$readlen, r.r.$lasterr
 
 //@ func BufferReader.readBinary
 //@   arith int
@@ -524,8 +525,8 @@ package thrift
 //@   ensures 0 <= n && n <= len(bs) && n <= len(U) && eqbytes(bs, 0, U, 0, n) && rdTake(r.r, n)
 //@   ensures (n == len(bs)) == (len(bs) <= len(U))
 //@   ensures (err == nil) == (n == len(bs))
-//@   ensures[C17] err != nil ==> srcWrap(err)
-//@   assigns bs[0:len(bs)], r.r.$u, r.r.$readlen
+//@   ensures[C17] err != nil ==> wraps(err, r.r)
+//@   assigns bs[0:len(bs)], r.r.$u, r.r.$readlen, r.r.$lasterr
 
 //@ func BufferReader.skipn
 //@   arith int
@@ -536,8 +537,8 @@ package thrift
 //@   ensures n >= 0 ==> (err == nil) == (n <= len(U))
 //@   ensures err == nil ==> rdTake(r.r, n)
 //@   ensures err != nil ==> rdSame(r.r)
-//@   ensures[C17] err != nil ==> srcWrap(err)
-//@   assigns r.r.$u, r.r.$readlen
+//@   ensures[C17] err != nil && n >= 0 ==> wraps(err, r.r)
+//@   assigns r.r.$u, r.r.$readlen, r.r.$lasterr
 
 //@ func BufferReader.Readn
 //@   arith int
@@ -556,8 +557,8 @@ package thrift
 //@   ensures len(U) >= 4 && sz >= 0 && len(U) < 4 + sz ==> err != nil
 //@   ensures len(U) >= 4 && sz >= 0 && len(U) >= 4 + sz ==> err == nil && len(b) == sz && eqbytes(b, 0, U, 4, sz) && rdTake(r.r, 4 + sz)
 //@   ensures[C16] err == nil ==> fresh(b)
-//@   ensures[C17] err != nil ==> srcWrap(err)
-//@   assigns r.r.$u, r.r.$readlen
+//@   ensures[C17] err != nil && err != errNegativeSize ==> wraps(err, r.r)
+//@   assigns r.r.$u, r.r.$readlen, r.r.$lasterr
 
 //@ func BufferReader.ReadString
 //@   arith int
@@ -570,8 +571,8 @@ package thrift
 //@   ensures len(U) >= 4 && sz >= 0 && len(U) < 4 + sz ==> err != nil
 //@   ensures len(U) >= 4 && sz >= 0 && len(U) >= 4 + sz ==> err == nil && len(s) == sz && eqbytes(s, 0, U, 4, sz) && rdTake(r.r, 4 + sz)
 //@   ensures[C16] err == nil ==> fresh(s)
-//@   ensures[C17] err != nil ==> srcWrap(err)
-//@   assigns r.r.$u, r.r.$readlen
+//@   ensures[C17] err != nil && err != errNegativeSize ==> wraps(err, r.r)
+//@   assigns r.r.$u, r.r.$readlen, r.r.$lasterr
 
 //@ func BufferReader.ReadMessageBegin
 //@   arith int
@@ -586,8 +587,8 @@ package thrift
 //@   ensures len(U) >= 4 && hdr & 0xffff0000 == 0x80010000 && (len(U) < 8 || (nsz >= 0 && len(U) < 12 + nsz)) ==> err != nil
 //@   ensures len(U) >= 8 && hdr & 0xffff0000 == 0x80010000 && nsz >= 0 && len(U) >= 12 + nsz ==>
 //@           err == nil && typeID == int32(hdr & 0xffff) && len(name) == nsz && eqbytes(name, 0, U, 8, nsz) && seq == int32(vs.BE32(U, 8 + nsz)) && rdTake(r.r, 12 + nsz)
-//@   ensures[C17] err != nil ==> srcWrap(err)
-//@   assigns r.r.$u, r.r.$readlen
+//@   ensures[C17] err != nil && err != errNegativeSize && err != errBadVersion ==> wraps(err, r.r)
+//@   assigns r.r.$u, r.r.$readlen, r.r.$lasterr
 
 //@ func BufferReader.ReadFieldBegin
 //@   arith int
@@ -598,8 +599,8 @@ package thrift
 //@   ensures len(U) >= 1 && U[0] == 0 ==> err == nil && typeID == 0 && id == 0 && rdTake(r.r, 1)
 //@   ensures len(U) >= 1 && U[0] != 0 && len(U) < 3 ==> err != nil && rdTake(r.r, 1)
 //@   ensures len(U) >= 3 && U[0] != 0 ==> err == nil && typeID == int8(U[0]) && id == int16(vs.BE16(U, 1)) && rdTake(r.r, 3)
-//@   ensures[C17] err != nil ==> srcWrap(err)
-//@   assigns r.r.$u, r.r.$readlen
+//@   ensures[C17] err != nil ==> wraps(err, r.r)
+//@   assigns r.r.$u, r.r.$readlen, r.r.$lasterr
 
 //@ func BufferReader.ReadMapBegin
 //@   arith int
@@ -609,8 +610,8 @@ package thrift
 //@   ensures (err == nil) == (6 <= len(U))
 //@   ensures err == nil ==> kt == int8(U[0]) && vt == int8(U[1]) && size == int(vs.BE32(U, 2)) && rdTake(r.r, 6)
 //@   ensures err != nil ==> rdSame(r.r)
-//@   ensures[C17] err != nil ==> srcWrap(err)
-//@   assigns r.r.$u, r.r.$readlen
+//@   ensures[C17] err != nil ==> wraps(err, r.r)
+//@   assigns r.r.$u, r.r.$readlen, r.r.$lasterr
 
 //@ func BufferReader.ReadListBegin
 //@   arith int
@@ -620,8 +621,8 @@ package thrift
 //@   ensures (err == nil) == (5 <= len(U))
 //@   ensures err == nil ==> et == int8(U[0]) && size == int(vs.BE32(U, 1)) && rdTake(r.r, 5)
 //@   ensures err != nil ==> rdSame(r.r)
-//@   ensures[C17] err != nil ==> srcWrap(err)
-//@   assigns r.r.$u, r.r.$readlen
+//@   ensures[C17] err != nil ==> wraps(err, r.r)
+//@   assigns r.r.$u, r.r.$readlen, r.r.$lasterr
 
 //@ func BufferReader.ReadSetBegin
 //@   arith int
@@ -631,8 +632,8 @@ package thrift
 //@   ensures (err == nil) == (5 <= len(U))
 //@   ensures err == nil ==> et == int8(U[0]) && size == int(vs.BE32(U, 1)) && rdTake(r.r, 5)
 //@   ensures err != nil ==> rdSame(r.r)
-//@   ensures[C17] err != nil ==> srcWrap(err)
-//@   assigns r.r.$u, r.r.$readlen
+//@   ensures[C17] err != nil ==> wraps(err, r.r)
+//@   assigns r.r.$u, r.r.$readlen, r.r.$lasterr
 
 // ---- stream writer (over the bufiox.Writer interface contract) ----
 // "err == nil ==> the stream grew by exactly one region of the advertised length that holds the encoding"
@@ -751,7 +752,7 @@ package thrift
 //@   let R = vs.StrLen(U)
 //@   ensures skipStream(R, ret, r.r, U)
 //@   ensures[C17] ret != nil ==> srcWrap(ret)
-//@   assigns r.r.$u, r.r.$readlen
+//@   assigns r.r.$u, r.r.$readlen, r.r.$lasterr
 
 // The stream skipper spends nesting budget slightly differently from the buffer skipper (a
 // string field of a struct goes through the recursive call and therefore needs budget), so
@@ -768,7 +769,7 @@ package thrift
 //@   ensures[g:hi] ret == nil ==> Rhi >= 0 && same(r.r.$u, U[Rhi:]) && rdUsed(r.r) == Rhi
 //@   ensures[g:lo] Rlo != -3 ==> skipStream(Rlo, ret, r.r, U)
 //@   ensures[C17] ret != nil ==> srcWrap(ret)
-//@   assigns r.r.$u, r.r.$readlen
+//@   assigns r.r.$u, r.r.$readlen, r.r.$lasterr
 
 //@ func BufferReader.skipType
 //@   arith int
@@ -784,7 +785,7 @@ package thrift
 //@   ensures[g:hi] ret == nil ==> Rhi >= 0 && same(r.r.$u, U[Rhi:]) && rdUsed(r.r) == Rhi
 //@   ensures[g:lo] Rlo != -3 ==> skipStream(Rlo, ret, r.r, U)
 //@   ensures[C17] ret != nil ==> srcWrap(ret)
-//@   assigns r.r.$u, r.r.$readlen
+//@   assigns r.r.$u, r.r.$readlen, r.r.$lasterr
 //@   decreases maxdepth
 //@   loop 1 invariant 0 <= j && j <= sz && err == nil && 6 <= rdUsed(r.r) && rdUsed(r.r) <= len(U) && same(r.r.$u, U[rdUsed(r.r):])
 //@   loop 1 invariant ksz == vs.Fixed(kt) && vsz == vs.Fixed(vt)
@@ -852,11 +853,12 @@ package thrift
 //@ ghost $taken int
 
 //@ pred tkUsed(d) = d.$taken - old(d.$taken)
+//@ pred prefixOf(r, b, n) = region(r) == region(b) && offset(r) == offset(b) && len(r) == n
 
 //@ iface SkipDecoderIface.SkipN
 //@   params n
 //@   results buf, err
-//@   requires n >= 0
+//@   requires 0 <= n && n <= 0xffffffffff
 //@   ensures (err == nil) == (n <= len(old(self.$u)))
 //@   ensures err == nil ==> len(buf) == n && eqbytes(buf, 0, old(self.$u), 0, n) && same(self.$u, old(self.$u)[n:]) && self.$taken == old(self.$taken) + n
 //@   assigns self.$u, self.$taken
@@ -872,8 +874,8 @@ package thrift
 //@   hint[g:hi] vs.LemmaFixedPairs(U[6:], int8(U[0]), int8(U[1]), int(int32(vs.BE32(U, 2))), maxdepth)
 //@   hint[g:lo] vs.LemmaFixedElems(U[5:], int8(U[0]), int(int32(vs.BE32(U, 1))), maxdepth - 1)
 //@   hint[g:lo] vs.LemmaFixedPairs(U[6:], int8(U[0]), int8(U[1]), int(int32(vs.BE32(U, 2))), maxdepth - 1)
-//@   ensures[g:hi] ret == nil ==> Rhi >= 0 && same(p.r.$u, U[Rhi:]) && tkUsed(p.r) == Rhi
-//@   ensures[g:lo] Rlo != -3 ==> (Rlo >= 0 ==> ret == nil && same(p.r.$u, U[Rlo:]) && tkUsed(p.r) == Rlo) && (Rlo < 0 ==> ret != nil) && (Rlo == -2 ==> ret == errNegativeSize)
+//@   ensures[g:hi] ret == nil ==> Rhi >= 0 && Rhi <= len(U) && same(p.r.$u, U[Rhi:]) && tkUsed(p.r) == Rhi
+//@   ensures[g:lo] Rlo != -3 ==> (Rlo >= 0 ==> ret == nil && Rlo <= len(U) && same(p.r.$u, U[Rlo:]) && tkUsed(p.r) == Rlo) && (Rlo < 0 ==> ret != nil) && (Rlo == -2 ==> ret == errNegativeSize)
 //@   assigns p.r.$u, p.r.$taken
 //@   decreases maxdepth
 //@   loop 1 invariant 0 <= tkUsed(p.r) && tkUsed(p.r) <= len(U) && same(p.r.$u, U[tkUsed(p.r):])
@@ -888,3 +890,58 @@ package thrift
 //@   loop 3 invariant[g:hi] vs.ElemsLenD(U[5:], vt, int(sz), maxdepth) == vs.Then(tkUsed(p.r) - 5, vs.ElemsLenD(p.r.$u, vt, int(sz - i), maxdepth))
 //@   loop 3 invariant[g:lo] maxdepth > 1 && vs.ElemsLenD(U[5:], vt, int(sz), maxdepth - 1) != -3 ==> vs.ElemsLenD(U[5:], vt, int(sz), maxdepth - 1) == vs.Then(tkUsed(p.r) - 5, vs.ElemsLenD(p.r.$u, vt, int(sz - i), maxdepth - 1))
 //@   loop 3 decreases int(sz - i)
+
+// ---- the three skip decoders: abstraction functions and refinement of SkipDecoderIface ----
+
+//@ global io.EOF != nil
+
+//@ constraint BytesSkipDecoder: same(self.b, old(self.b))
+//@ model BytesSkipDecoder.$u = snap(self.b[self.n:])
+//@ model BytesSkipDecoder.$taken = self.n
+
+//@ func BytesSkipDecoder.SkipN
+//@   arith int
+//@   props C02, C03, C08, C09
+//@   refines SkipDecoderIface.SkipN
+//@   requires 0 <= p.n && p.n <= len(p.b)
+//@   ensures 0 <= p.n && p.n <= len(p.b)
+//@   ensures 0 <= old(p.n) && old(p.n) + n <= len(old(p.b)) ==> ret1 == nil && same(ret0, old(p.b)[old(p.n) : old(p.n) + n]) && p.n == old(p.n) + n
+//@   ensures !(old(p.n) + n <= len(old(p.b))) ==> isnil(ret0) && ret1 == io.EOF && p.n == old(p.n)
+//@   ensures same(p.b, old(p.b))
+//@   assigns p.n
+
+//@ func BytesSkipDecoder.Next
+//@   arith int
+//@   props C02, C03, C08, C09
+//@   requires p.n == 0
+//@   let U = snap(p.b)
+//@   let Rlo = vs.ValLenD(U, t, 63)
+//@   let Rhi = vs.ValLenD(U, t, 64)
+//@   ensures[g:hi] err == nil ==> Rhi >= 0 && prefixOf(b, old(p.b), Rhi) && same(snap(p.b), U[Rhi:]) && p.n == 0
+//@   ensures[g:lo] Rlo != -3 ==> (Rlo >= 0 ==> err == nil && prefixOf(b, old(p.b), Rlo)) && (Rlo < 0 ==> err != nil)
+//@   assigns p.n, p.b
+
+//@ constraint SkipDecoder: same(self.r, old(self.r)) && rdSame(self.r)
+//@ model SkipDecoder.$u = self.r.$u[self.rn:]
+//@ model SkipDecoder.$taken = self.rn
+
+//@ func SkipDecoder.SkipN
+//@   arith int
+//@   props C02, C03, C08, C09
+//@   refines SkipDecoderIface.SkipN
+//@   requires !isnil(p.r) && 0 <= p.rn && p.rn <= len(p.r.$u)
+//@   ensures !isnil(p.r) && 0 <= p.rn && p.rn <= len(p.r.$u)
+//@   ensures rdSame(p.r) && same(p.r, old(p.r))
+//@   assigns p.rn, p.r.$u, p.r.$readlen, p.r.$lasterr
+
+//@ func SkipDecoder.Next
+//@   arith int
+//@   props C02, C03, C08, C09
+//@   requires !isnil(p.r)
+//@   let U = p.r.$u
+//@   let Rlo = vs.ValLenD(U, t, 63)
+//@   let Rhi = vs.ValLenD(U, t, 64)
+//@   ensures[g:hi] err == nil ==> Rhi >= 0 && len(buf) == Rhi && eqbytes(buf, 0, U, 0, Rhi) && rdTake(p.r, Rhi)
+//@   ensures[g:lo] Rlo != -3 ==> (Rlo >= 0 ==> err == nil && len(buf) == Rlo && eqbytes(buf, 0, U, 0, Rlo) && rdTake(p.r, Rlo)) && (Rlo < 0 ==> err != nil && rdSame(p.r))
+//@   ensures same(p.r, old(p.r))
+//@   assigns p.rn, p.r.$u, p.r.$readlen, p.r.$lasterr
